@@ -130,8 +130,29 @@ def generate(loader):
     out.append(emit("gen_tversky_c2w", ["al", "be", "eps"], [("x", x2), ("y", y2), ("w", w2)],
                     L.tversky_index(x2, y2, weight=w2, alpha=al, beta=be, epsilon=eps, reduction="none"),
                     "tversky_index on a two-channel image with a (1, 1, X) weight"))
+    # one-channel (binary) input with a voxelwise weight; tversky_loss with and without the focal exponent
+    out.append(emit("gen_tversky_w", ["al", "be", "eps"], xyw,
+                    L.tversky_index(x, y, weight=w, alpha=al, beta=be, epsilon=eps, reduction="none"),
+                    "tversky_index(x, y, weight=w, alpha, beta, epsilon) on a one-channel image"))
+    out.append(emit("gen_tversky_loss_w", ["al", "be", "eps"], xyw,
+                    L.tversky_loss(x, y, weight=w, alpha=al, beta=be, epsilon=eps, reduction="none"),
+                    "tversky_loss(x, y, weight=w, alpha, beta, epsilon)"))
+    out.append(emit("gen_tversky_loss_g1", ["al", "be", "eps"], xy,
+                    L.tversky_loss(x, y, alpha=al, beta=be, gamma=1, epsilon=eps, reduction="none"),
+                    "tversky_loss(..., gamma=1)"))
+    out.append(emit("gen_tversky_loss_g3", ["al", "be", "eps"], xy,
+                    L.tversky_loss(x, y, alpha=al, beta=be, gamma=3, epsilon=eps, reduction="none"),
+                    "tversky_loss(..., gamma=3): focal Tversky loss"))
+    out.append(emit("gen_tversky_loss_mean", ["al", "be", "eps"], [("x", x2), ("y", y2)],
+                    L.tversky_loss(x2, y2, alpha=al, beta=be, epsilon=eps, reduction="mean"),
+                    "tversky_loss on a two-channel image, reduction='mean'"))
+    d1 = L.tversky_loss(x, y, epsilon=eps, reduction="none")
+    d2 = L.tversky_loss(x, y, alpha=E.const(0.5), beta=E.const(0.5), epsilon=eps, reduction="none")
+    if not trlib.same_tensor(d1.a, d2.a):
+        raise TraceError("tversky_loss: default alpha/beta are not 1/2")
     attempt("tversky_index_binary_weight", lambda: L.tversky_index(x, y, weight=w, epsilon=eps))
     attempt("tversky_loss", lambda: L.tversky_loss(x, y, epsilon=eps))
+    attempt("tversky_loss_gamma_half", lambda: L.tversky_loss(x, y, gamma=0.5, epsilon=eps))
     attempt("ncc_loss_mask", lambda: L.ncc_loss(x, y, mask=w, epsilon=eps))
     attempt("dice_score_weight", lambda: L.dice_score(x, y, weight=w, epsilon=eps))
     attempt("lcc_loss_mask", lambda: L.lcc_loss(x, y, mask=w, kernel_size=3, epsilon=eps))
